@@ -125,16 +125,21 @@ Proof.
   destruct (str_eqb k0 k) eqn:E; [apply str_eqb_eq in E; tauto|]. rewrite IH; tauto.
 Qed.
 
-Lemma build_md_id_gen members acc :
-  NoDup (map fst acc ++ map fst members) ->
-  fold_left (fun d (m : str * list str) => dict_set d (fst m) (snd m)) members acc = acc ++ members.
+Lemma dict_fold_id {V} (d acc : list (str * V)) :
+  NoDup (map fst acc ++ map fst d) ->
+  fold_left (fun acc (e : str * V) => dict_set acc (fst e) (snd e)) d acc = acc ++ d.
 Proof.
-  revert acc. induction members as [|[m s] r IH]; intro acc; cbn [fold_left map fst]; intro N.
+  revert acc. induction d as [|[m s] r IH]; intro acc; cbn [fold_left map fst]; intro N.
   - now rewrite app_nil_r.
   - rewrite dict_set_fresh.
     + rewrite IH; [now rewrite <- app_assoc|]. rewrite map_app, <- app_assoc. exact N.
     + apply NoDup_remove_2 in N. rewrite in_app_iff in N. tauto.
 Qed.
+
+Lemma build_md_id_gen members acc :
+  NoDup (map fst acc ++ map fst members) ->
+  fold_left (fun d (m : str * list str) => dict_set d (fst m) (snd m)) members acc = acc ++ members.
+Proof. apply dict_fold_id. Qed.
 
 (* distinct ids: the dict IS the member list *)
 Lemma build_md_id members : NoDup (map fst members) -> build_md members = members.
